@@ -16,7 +16,7 @@ from vf.x_shapes import D, W, Z
 import classy_blocks as cb
 
 RULE = (
-    "Stacks: Grid n1 x n2 (1..5) with 1..4 tiers (pairwise different sizes in 3 of 4 cases), extruded (amount / "
+    "Stacks: Grid(point_1, point_2, n1, n2) with independent corner coordinates of either sign, n1 x n2 (1..5) with 1..4 tiers (pairwise different sizes in 3 of 4 cases), extruded (amount / "
     "vector), revolved and transformed, base placed by a general rigid map; the expected centre of cell (i, j, k) is "
     "computed by the harness (layer maps from Rodrigues' formula) and every operation is decoded by its position. "
     "Round shapes and disk / oval / spline sketches in random placement: an entity touches the outer surface when one "
@@ -56,7 +56,8 @@ def stack_cases(draw, how: str):
     n1, n2, t = draw(st.sampled_from(DISTINCT_SIZES)) if draw(st.integers(0, 3)) else draw(st.sampled_from(SIZES))
     if draw(st.sampled_from([False, False, False, True])):
         n2 = 1  # single-row grid: shape.operations has nothing to flatten
-    sp = {"kind": "Grid", "r": draw(xs.radii), "phi": 0.0, "n1": n1, "n2": n2, "aspect": draw(st.floats(0.3, 3.0))}
+    sp = {"kind": "Grid", "r": draw(xs.radii), "phi": 0.0, "n1": n1, "n2": n2, "aspect": draw(st.floats(0.3, 3.0)),
+          "p1": draw(xs.grid_corners())}  # lower-left corner handed to Grid(), in units of r: x != y, either sign
     q = draw(xs.sweep_params(how))
     q["repeats"] = t
     counts = [[draw(st.integers(1, 6)) for _ in range(n)] for n in (n1, n2, t)]
@@ -74,9 +75,12 @@ def expected_centres(case) -> Dict[Tuple[int, int, int], np.ndarray]:
     n1, n2, t = sp["n1"], sp["n2"], q["repeats"]
     w1, w2 = sp["r"], sp["r"] * sp["aspect"]
     maps = xs.stack_maps(sp, q, place)
+    x0, y0, _ = xs.sketch_origin(sp)
     out = {}
     for i, j in itertools.product(range(n1), range(n2)):
-        quad = np.array([W(M, [(i + a) * w1 / n1, (j + b) * w2 / n2, 0.0]) for a, b in ((0, 0), (1, 0), (1, 1), (0, 1))])
+        # the rectangle requested from the constructor: point_1 = (x0, y0), point_2 = (x0 + w1, y0 + w2)
+        quad = np.array([W(M, [x0 + (i + a) * w1 / n1, y0 + (j + b) * w2 / n2, 0.0])
+                         for a, b in ((0, 0), (1, 0), (1, 1), (0, 1))])
         for k in range(t):
             out[(i, j, k)] = np.vstack([rm.apply(maps[k], quad), rm.apply(maps[k + 1], quad)]).mean(axis=0)
     return out
@@ -153,7 +157,8 @@ def check_stack(case, ctx: Ctx) -> None:
         base = stack.shapes[0].sketch_1
         M = xs.frame(place)
         for j, i in itertools.product(range(n2), range(n1)):
-            want = W(M, [(i + 0.5) * sp["r"] / n1, (j + 0.5) * sp["r"] * sp["aspect"] / n2, 0.0])
+            x0, y0, _ = xs.sketch_origin(sp)
+            want = W(M, [x0 + (i + 0.5) * sp["r"] / n1, y0 + (j + 0.5) * sp["r"] * sp["aspect"] / n2, 0.0])
             if np.linalg.norm(base.grid[j][i].center - want) > 1e-6 * cell:
                 raise Violation("sketch-grid-address", f"sketch.grid[{j}][{i}] is not the face in column {i}, row {j}", **facts_)
         for k, shape in enumerate(stack.shapes):
